@@ -96,10 +96,57 @@ func runC02(p *Plan, res *world.Result) {
 		})
 	}
 	s.Run(3000, nil)
+	// C02.A3: sealing the same value twice gives different strings — by the same instance, and by a
+	// second instance built from the same secret at the same instant (a restarted process, or the
+	// proxy's one cookie cipher per upstream): the clock of the bubble has not moved since the first
+	// instances were built unless a task slept.
+	if len(s.Stuck()) == 0 {
+		seen := map[string]string{}
+		note := func(val, who string) {
+			v.cover("C02.A3|sched|%s", who[:4])
+			if prev, dup := seen[val]; dup {
+				v.violate("C02.A3-fresh-nonce", fmt.Sprintf("the same sealed string was produced twice (%s, then %s)", prev, who), "kind", "sched", "facet", ternaryS(prev[:4] == who[:4], "same-instance", "across-instances"))
+			}
+			seen[val] = who
+		}
+		for _, sv := range pre {
+			note(sv.value, fmt.Sprintf("gen0 cipher%d at boot", sv.cipher))
+		}
+		for gen := 1; gen <= 1+p.P["mix"]%2; gen++ {
+			again := make([]*aead.MiscreantCipher, n)
+			for i := range again {
+				key := make([]byte, 32)
+				for j := range key {
+					key[j] = byte(17*i + j + 1)
+				}
+				again[i], _ = aead.NewMiscreantCipher(key)
+			}
+			for i, sv := range pre {
+				orig := sv.orig
+				val, err := sessions.MarshalSession(&orig, again[sv.cipher])
+				if err != nil {
+					continue
+				}
+				note(val, fmt.Sprintf("gen%d cipher%d after restart, value %d", gen, sv.cipher, i))
+				// and once more by the same instance
+				val2, err := sessions.MarshalSession(&orig, again[sv.cipher])
+				if err == nil {
+					note(val2, fmt.Sprintf("gen%d cipher%d after restart, value %d again", gen, sv.cipher, i))
+				}
+			}
+		}
+	}
 	for _, t := range s.Stuck() {
 		v.violate("C02.A1-round-trip", fmt.Sprintf("%s never returned", t.Name), "facet", "stuck")
 	}
 	v.probe("cipher_ops_interleaved")
 	finish(s, res)
 	s.ReleaseAll()
+}
+
+func ternaryS(c bool, a, b string) string {
+	if c {
+		return a
+	}
+	return b
 }
